@@ -44,7 +44,8 @@ tiny-buffer ones) and to aliasing and retention (a value returned to or passed b
 shares memory with library state), the twelfth to two cooperating sites that are each correct
 alone and to rarely used options and secondary entry points, the thirteenth was told to make
 the change hard to find by random testing (a trigger below one in a million per random session
-that structured real-world data produces readily).
+that structured real-world data produces readily), the fourteenth to break the property from a
+distance (a dependency two or three hops away from the property's home files).
 All %d changes were
 confirmed by `bin/confirm-seeded` (patch applies to HEAD; `go build ./...`; `go test` of every
 package except the root passes; the demonstration fails with the change and passes without it) and
@@ -94,6 +95,11 @@ structure - negative numbers, a thousand protocol rounds times sixty-five, a mil
 vector elements, a periodic corruption, two machines with one random stream, a symbol table
 with holes, Go values instead of strings - and, for C17-m, after garbage collection became a seam.
 None of the fourteen needed a coincidence that stays out of reach once the shape is generated.
+The fourteenth wave (from a distance): ten caught at once - distance does not matter to a check
+that runs the whole stack - and four after an extension: the default `env.Config` (no `Rand`),
+which no world had ever used; `Conn`s made by the library's own network constructor;
+`runtime.AddCleanup`; arrays of arrays. One (C04-n) is caught by C14's check, whose property it
+breaks first.
 
 ''' % (ordn[len(waves) - 1].capitalize(), len(rows), len(own), len(missed), len(rows), per_wave, ', '.join(m['name'] for m in notcaught))
 out += '''| change | property | what was changed | needs | clause that fires | missed at first? |
@@ -212,6 +218,10 @@ What the misses taught (kept as rules for the workloads):
 * A test circuit must not forgive: the first deep chain of C10 reset itself at every 0 bit and
   computed the right answer from wrong intermediate values.
 * The garbage collector is a scheduler too (C17-m): finalizers run when the simulator says so.
+
+* The default is an option too: every world passed its own randomness source, so
+  `env.Config{}` - what most callers use - had never run (C16-n). And objects made by the library's
+  own constructors (a socket wrapped by `p2p.Network`) differ from the ones a harness makes (C11-n).
 
 Own mutants (`/verif/mutants/*.diff`; `revert-<commit>` is a `fix:` commit reversed): ''' + ', '.join(own) + '''.
 
